@@ -14,9 +14,11 @@ from pathlib import Path
 
 ROOT = Path(__file__).resolve().parent.parent
 SPEC = ROOT / "spec"
-WORK = ROOT / ".work"
-EVID = ROOT / "evidence"
-REPLAYS = ROOT / "replays"
+# scratch / output locations can be redirected (used by tools/seed_matrix.sh so that runs against a patched
+# scratch copy of the repository do not touch the committed evidence); the registered commands use the defaults
+WORK = Path(os.environ.get("VERIF_WORK", ROOT / ".work"))
+EVID = Path(os.environ.get("VERIF_EVIDENCE_DIR", ROOT / "evidence"))
+REPLAYS = Path(os.environ.get("VERIF_REPLAYS_DIR", ROOT / "replays"))
 REPO = Path(os.environ.get("XEOFS_REPO", "/repo"))
 GUARD = "XEOFS_VERIF"
 
